@@ -22,7 +22,7 @@ func init() {
 	register("C09", &propDef{
 		Title: "A bundle survives being re-opened and archived",
 		Rules: []func(*Checker){ruleC09Fields, ruleC09Archive, ruleChecksum("C09.checksum"), ruleC06ManifestAs("C09.addrs"),
-			ruleRootSymmetric("C09.symmetric"), ruleLinkPrecise("C09.linkprecise"), ruleC09Answers, ruleLocalMemo("C09.localmemo"), ruleGuardOwnField("C09.metaguard"), ruleNameAgreement("C09.names", "sourcebundle"),
+			ruleRootSymmetric("C09.symmetric"), ruleLinkPrecise("C09.linkprecise"), ruleC09Answers, ruleLocalMemo("C09.localmemo"), ruleGuardOwnField("C09.metaguard"), ruleRestore("C09.restore"), ruleMeta("C09.meta"), ruleNameAgreement("C09.names", "sourcebundle"),
 			aliasRuleFiltered(ruleC02LinkTarget, "C02.linktarget", "C09.linktarget", 1, func(o Oblig) bool { return strings.Contains(o.Key, "Unpack") }),
 			aliasRuleFiltered(ruleC06CanonURL, "C06.canonurl", "C09.canonkey", 1, func(o Oblig) bool { return strings.Contains(o.Key, "canonical") }),
 			aliasRuleFiltered(ruleC13Maps, "C13.maps", "C09.lookup", 3, func(o Oblig) bool {
@@ -35,7 +35,8 @@ func init() {
 	})
 	register("C10", &propDef{
 		Title: "Bundle package directories are sanitised",
-		Rules: []func(*Checker){ruleC10Walked, ruleC10Exits, ruleC10Links, aliasRuleFiltered(ruleC13Names, "C13.names", "C10.hash", 1, func(o Oblig) bool { return strings.Contains(o.Key, "directory name is a content hash") }), ruleC10Tmp, ruleC10Inside, ruleC03PruneAs("C10.ignored"), ruleC03BundleAs("C10.removed"), ruleBuilderAbsDir("C10.absdir"), ruleBundleWalkChain("C10.chain")},
+		Rules: []func(*Checker){ruleC10Walked, ruleC10Exits, ruleC10Links, aliasRuleFiltered(ruleC13Names, "C13.names", "C10.hash", 1, func(o Oblig) bool { return strings.Contains(o.Key, "directory name is a content hash") }), ruleC10Tmp, ruleC10Inside, ruleC03PruneAs("C10.ignored"), ruleC03BundleAs("C10.removed"), ruleBuilderAbsDir("C10.absdir"), ruleBundleWalkChain("C10.chain"),
+			aliasRule(ruleC03Parse, "C03.parse", "C10.parse", 3), aliasRule(ruleC03LastWins, "C03.lastwins", "C10.lastwins", 1), aliasRule(ruleC03Glob, "C03.glob", "C10.glob", 3), aliasRule(ruleC03MatchErr, "C03.matcherr", "C10.matcherr", 1)},
 		NotDecided: []string{
 			"what filepath.EvalSymlinks resolves to; races with other processes modifying the temporary directory",
 			"what the fetcher itself writes",
